@@ -193,7 +193,7 @@ func runIPServer(ctx context.Context, log *slog.Logger, mtrcs *ipServerMetrics,
 		if !ok {
 			txt1 = txt0
 		}
-		updateTXTimestamp(clientID, rxt, &txt1)
+		updateTXTimestamp(clientID, rxt, txt0, &txt1)
 
 		mtrcs.reqsServed.Inc()
 	}
